@@ -1,6 +1,7 @@
 (* C10 — Connection-scoped state never leaks into the next connection or session.  Statements
    only; proofs in Conn/Scope.v.  Nothing else may be added to this file. *)
-From MQ Require Import Base.Prelude Alloc.Alloc Framing.Framing Conn.Types Conn.ConnRecord Conn.Step Corr.ConnTrace Conn.Scope.
+From MQ Require Import Base.Prelude Alloc.Alloc Framing.Framing Conn.Types Conn.ConnRecord Conn.Step Conn.Run Corr.ConnTrace Conn.Scope
+                       Conn.PidInv Conn.PidInv2.
 
 (* EVERY state (no reachability needed, hence every first-connection history and every close path):
    notify_closed resets the packet-size limits, the alias tables, the partially received frame, the
@@ -66,12 +67,31 @@ Theorem C10_session_not_present_clears : forall c, resume_or_clear c false = Ok 
 Proof. exact session_not_present_clears. Qed.
 Print Assumptions C10_session_not_present_clears.
 
-(* C10_partial: (i) pid_bounds (the allocator's fixed bounds 1..max) is an invariant of every
-   operation of Alloc.v (a_deallocate_bounds, use_value_spec, allocate_spec) but its preservation by
-   every connection step is checked by the correspondence (digest), not yet a theorem; (ii) the
-   CONNACK(session not present) path is proved for the store-related state only; the comparison of
-   the whole traces on that path is decided by the paired-run monitor mon_pair (reused
-   implementation object vs fresh implementation object, events and full digest). *)
+(* the allocator's bounds are an invariant of EVERY call (walk through all of core.rs's functions),
+   hence of every history; so the statements above need no hypothesis on the state: *)
+Theorem C10_pid_bounds_invariant : forall g ops c,
+  pid_bounds g c -> match run_state g c ops with Some c' => pid_bounds g c' | None => True end.
+Proof. exact pid_bounds_invariant. Qed.
+Print Assumptions C10_pid_bounds_invariant.
+
+(* after EVERY history of a freshly constructed object, ended by notify_closed, a clean-start
+   CONNECT (sent / received) has exactly the outcome it has on a fresh object with the same options *)
+Theorem C10_reused_after_any_history_client : forall g v ops c c1 e p,
+  run_state g (conn_new g v) ops = Some c -> do_closed c = Ok (c1, e) -> k_flag p = true -> size_ok c1 p = true ->
+  send_connect c1 p = send_connect (fresh_like g c) p.
+Proof. exact reused_after_any_history_client. Qed.
+Print Assumptions C10_reused_after_any_history_client.
+
+Theorem C10_reused_after_any_history_server : forall g v ops c c1 e v' p,
+  run_state g (conn_new g v) ops = Some c -> do_closed c = Ok (c1, e) -> k_flag p = true ->
+  recv_connect g c1 v' (PROk p) = recv_connect g (fresh_like g c) v' (PROk p).
+Proof. exact reused_after_any_history_server. Qed.
+Print Assumptions C10_reused_after_any_history_server.
+
+(* C10_partial: the CONNACK(session not present) path is proved for the store-related state only
+   (C10_session_not_present_clears); the comparison of whole traces on that path is decided by the
+   paired-run monitor mon_pair (reused implementation object vs fresh implementation object,
+   events and full digest). *)
 
 Example C10_nonvacuous :
   let g := mkCfg RClient 65535 2 in
